@@ -5,6 +5,7 @@
 #include <sstream>
 #include <typeinfo>
 
+#include "local_mesh_refiner.hpp"
 #include "geom.hpp"
 
 #include "cell.hpp"
@@ -104,6 +105,36 @@ inline TriMesh snapshot(const cell& c) {
         m.tri.push_back(t[2]);
     }
     return m;
+}
+
+// Real refinement operations (edge collapses and splits through the public local_mesh_refiner) that leave the cell in the state most
+// cells of a running simulation are in: unused node and face slots in the middle of its lists (the solver only compacts a cell when a
+// mesh file is written or the cell divides).  Returns the number of operations performed.
+inline int leave_free_slots(const cell_ptr& c, int ops, uint64_t seed) {
+    if (!c || c->get_nb_of_faces() < 20 || ops <= 0) return 0;
+    // band chosen so that every edge may be collapsed or split: the operations are driven directly, not by lengths
+    local_mesh_refiner lmr(1.0, 3.0, true);
+    int done = 0;
+    for (int o = 0; o < ops; o++) {
+        std::vector<edge> es(c->get_edge_set().begin(), c->get_edge_set().end());
+        if (es.empty()) break;
+        std::sort(es.begin(), es.end(), [](const edge& a, const edge& b) { return std::make_pair(a.n1(), a.n2()) < std::make_pair(b.n1(), b.n2()); });
+        seed = seed * 6364136223846793005ull + 1442695040888963407ull;
+        edge e = es[(size_t)((seed >> 33) % es.size())];
+        edge_set scratch;
+        try {
+            // collapses first (they free slots); a split afterwards recycles some of them so that holes sit at arbitrary places
+            if (o % 3 != 2) {
+                if (c->get_nb_of_faces() >= 20 && lmr.can_be_merged(e, c)) lmr.merge_edge(e, c, scratch), done++;
+            } else {
+                lmr.split_edge(e, c, scratch), done++;
+            }
+        } catch (const std::exception&) {
+            break;
+        }
+    }
+    c->update_all_face_normals_and_areas();
+    return done;
 }
 
 struct TopoOpts {
